@@ -44,6 +44,7 @@ type UnitResult struct {
 	Obls     []*OblResult `json:"obligations"`
 	Notes    []string     `json:"notes,omitempty"`
 	Cover    string       `json:"cover,omitempty"` // sat = some return reachable under the assumptions
+	DeadReturns []string  `json:"unreachable_returns,omitempty"` // returns no input reaches under the contract (expected for error paths a precondition excludes; anything else means a contradictory contract)
 	Error    string       `json:"error,omitempty"`
 	Quant    bool         `json:"quantified_assumptions,omitempty"`
 	Instances int         `json:"hypothesis_instances,omitempty"`
@@ -170,6 +171,7 @@ func (p *Program) buildFuncUnit(fn *ssa.Function) (ur *UnitResult) {
 		r := f.rets[ri]
 		rp := &f.rets[ri]
 		g.covers = append(g.covers, r.reach)
+		g.coverPos = append(g.coverPos, f.pos(r.pos).String())
 		if f.contract == nil {
 			continue
 		}
@@ -185,7 +187,7 @@ func (p *Program) buildFuncUnit(fn *ssa.Function) (ur *UnitResult) {
 		}
 		for _, en := range f.contract.Ensures {
 			g.beginGoal()
-			o := g.oblige("ensures", r.reach, env.evalBool(en.E), f.pos(r.pos), "postcondition of "+fn.Name())
+			o := g.oblige("ensures", r.reach, evalEnsuresAt(env, en.E), f.pos(r.pos), "postcondition of "+fn.Name())
 			g.endGoal()
 			o.Clause = en.Text
 			o.Ret = rp
@@ -283,6 +285,7 @@ func (g *Gen) prelude(qf bool) string {
 (assert (forall ((a Str) (b Str)) (! (=> (bvsle (bvadd (strlen a) (strlen b)) #x0001000000000000) (= (strlen (str_cat a b)) (bvadd (strlen a) (strlen b)))) :pattern ((str_cat a b)))))
 (assert (forall ((a (Array (_ BitVec 64) (_ BitVec 8))) (o (_ BitVec 64)) (n (_ BitVec 64))) (! (=> (and (bvsle #x0000000000000000 n) (bvsle n #x0001000000000000)) (= (strlen (str_of_bytes a o n)) n)) :pattern ((str_of_bytes a o n)))))
 (assert (forall ((a (Array (_ BitVec 64) (_ BitVec 8))) (o (_ BitVec 64)) (n (_ BitVec 64)) (i (_ BitVec 64))) (! (=> (and (bvsle #x0000000000000000 i) (bvslt i n) (bvsle n #x0001000000000000)) (= (strat (str_of_bytes a o n) i) (select a (bvadd o i)))) :pattern ((strat (str_of_bytes a o n) i)))))
+(assert (forall ((a (Array (_ BitVec 64) (_ BitVec 8))) (o (_ BitVec 64)) (n (_ BitVec 64)) (i (_ BitVec 64)) (v (_ BitVec 8))) (! (=> (and (bvsle #x0000000000000000 o) (bvsle #x0000000000000000 n) (bvsle n #x0001000000000000) (bvsle o #x0001000000000000) (or (bvslt i o) (bvsge i (bvadd o n)))) (= (str_of_bytes (store a i v) o n) (str_of_bytes a o n))) :pattern ((str_of_bytes (store a i v) o n)))))
 (assert (forall ((s Str) (i (_ BitVec 64))) (! (= (select (str_bytes s) i) (strat s i)) :pattern ((select (str_bytes s) i)))))
 `)
 	}
@@ -555,7 +558,27 @@ func (ur *UnitResult) discharge(opt Options) {
 			}
 		}()
 	}
+	// reachability of each return on its own (quantifier-free, short budget): reported, not a failure
+	if len(g.covers) > 1 && len(g.covers) == len(g.coverPos) {
+		var mu sync.Mutex
+		for i := range g.covers {
+			wg.Add(1)
+			go func(i int) {
+				defer wg.Done()
+				q := g.prelude(true) + g.body(true, 1<<30) + "(assert " + g.covers[i] + ")\n(check-sat)\n"
+				file := write(fmt.Sprintf("%s_ret%d", ur.Unit, i), q)
+				ans, _ := race(file, 3000, 1, opt.Solvers)
+				os.Remove(file)
+				if ans.Status == "unsat" {
+					mu.Lock()
+					ur.DeadReturns = append(ur.DeadReturns, g.coverPos[i])
+					mu.Unlock()
+				}
+			}(i)
+		}
+	}
 	wg.Wait()
+	sort.Strings(ur.DeadReturns)
 }
 
 func (ur *UnitResult) solveOne(r *OblResult, opt Options, write func(hint, text string) string) {
@@ -640,4 +663,28 @@ func (ur *UnitResult) solveOne(r *OblResult, opt Options, write func(hint, text 
 		sort.Strings(outs)
 		r.Output = strings.Join(outs, " | ")
 	}
+}
+
+// evalEnsuresAt evaluates a postcondition at one return point. A clause A ==> B whose consequent mentions a
+// local variable that does not exist at this return (it is declared later in the function) demands that A
+// is false here: the return must not be one the clause speaks about.
+func evalEnsuresAt(env *Env, x Expr) (term string) {
+	bin, isImp := x.(*EBinary)
+	if !isImp || bin.Op != "==>" {
+		return env.evalBool(x)
+	}
+	g := env.g
+	saveQ, saveQB := g.inQuant, len(g.qbuilding)
+	defer func() {
+		if r := recover(); r != nil {
+			se, ok := r.(specErr)
+			if !ok || !strings.Contains(string(se), "unknown identifier") {
+				panic(r)
+			}
+			g.inQuant, g.qbuilding = saveQ, g.qbuilding[:saveQB]
+			ante := env.evalBool(bin.L)
+			term = sNot(ante)
+		}
+	}()
+	return env.evalBool(x)
 }
